@@ -143,3 +143,61 @@ Lemma masked_invariance img img' masked H W n :
   (forall r c, In (r, c) (border H W n) -> masked r c = false -> img r c = img' r c) ->
   sky_values img masked H W n = sky_values img' masked H W n.
 Proof. intros Hflag Hag. unfold sky_values. rewrite Hflag. apply gathered_masked. assumption. Qed.
+
+(* ---- the statistics depend only on the multiset of gathered values (session 3) ---- *)
+From Coq Require Import Permutation Sorted.
+
+Lemma insert_comm x y l : insert x (insert y l) = insert y (insert x l).
+Proof.
+  induction l as [|z l IH]; cbn [insert].
+  - destruct (Z.leb_spec x y) as [Hxy|Hxy], (Z.leb_spec y x) as [Hyx|Hyx]; try reflexivity; try lia.
+    assert (x = y) by lia. subst. reflexivity.
+  - destruct (Z.leb_spec x z) as [Hxz|Hxz], (Z.leb_spec y z) as [Hyz|Hyz]; cbn [insert].
+    + destruct (Z.leb_spec x y) as [Hxy|Hxy], (Z.leb_spec y x) as [Hyx|Hyx]; cbn [insert];
+        repeat match goal with |- context [?a <=? ?b] => destruct (Z.leb_spec a b); try lia end; try reflexivity.
+      assert (x = y) by lia. subst. reflexivity.
+    + repeat match goal with |- context [?a <=? ?b] => destruct (Z.leb_spec a b); try lia end; reflexivity.
+    + repeat match goal with |- context [?a <=? ?b] => destruct (Z.leb_spec a b); try lia end; reflexivity.
+    + repeat match goal with |- context [?a <=? ?b] => destruct (Z.leb_spec a b); try lia end. rewrite IH. reflexivity.
+Qed.
+
+Lemma isort_perm_eq l l' : Permutation l l' -> isort l = isort l'.
+Proof.
+  intros P. induction P as [|x l l' P IH|x y l|l l' l'' P1 IH1 P2 IH2].
+  - reflexivity.
+  - unfold isort in *. cbn [fold_right]. rewrite IH. reflexivity.
+  - unfold isort. cbn [fold_right]. apply insert_comm.
+  - congruence.
+Qed.
+
+Lemma median2_perm l l' : Permutation l l' -> median2 l = median2 l'.
+Proof. intros P. unfold median2. rewrite (isort_perm_eq _ _ P). reflexivity. Qed.
+
+Lemma insert_perm x l : Permutation (insert x l) (x :: l).
+Proof.
+  induction l as [|y l IH]; cbn [insert]; [apply Permutation_refl|].
+  destruct (x <=? y); [apply Permutation_refl|].
+  eapply perm_trans; [apply perm_skip, IH | apply perm_swap].
+Qed.
+
+Lemma isort_perm l : Permutation (isort l) l.
+Proof.
+  induction l as [|x l IH]; [apply perm_nil|]. unfold isort in *. cbn [fold_right].
+  eapply perm_trans; [apply insert_perm | apply perm_skip, IH].
+Qed.
+
+(* the sorted list is ascending: the returned statistics are order statistics of the gathered multiset *)
+Lemma insert_sorted x l : LocallySorted Z.le l -> LocallySorted Z.le (insert x l).
+Proof.
+  intros S. induction S as [|a|a b l S IH Hab]; cbn [insert].
+  - constructor.
+  - destruct (Z.leb_spec x a); repeat constructor; lia.
+  - cbn [insert] in IH. destruct (Z.leb_spec x a) as [Hxa|Hxa].
+    + repeat constructor; assumption.
+    + destruct (Z.leb_spec x b) as [Hxb|Hxb].
+      * constructor; [assumption | lia].
+      * constructor; [exact IH | exact Hab].
+Qed.
+
+Lemma isort_sorted l : LocallySorted Z.le (isort l).
+Proof. induction l as [|x l IH]; [constructor|]. unfold isort in *. cbn [fold_right]. apply insert_sorted, IH. Qed.
